@@ -250,17 +250,24 @@ pub mod sched {
         pub own: [u8; MAXC],       // 9 = free, 1 = outer thread, 2 = inner thread
         pub in_inner: u8,
         pub inner_budget: usize,
-        pub outer_in_flight: u8,
+        pub outer_in_flight: u8,   // 1 = an outer operation is between its first and last shared op
+        pub outer_release_in_flight: u8,
         pub max_held_in_op: usize,
         pub inner_mid_op: bool,
         pub inner_acq_mid_op: usize,
         pub inner_rel_mid_op: usize,
         pub bad_fail: bool,
         pub cap: usize,
+        pub lock_mode: bool,       // every release uses LockIfLastIndex
+        pub locked_returned: bool, // some release returned Locked
+        pub releases: usize,
+        pub acquired_after_lock: bool,
+        pub bad_locked_fail: bool,
     }
     pub static mut BOOK: Book = Book {
-        own: [9; MAXC], in_inner: 2, inner_budget: 0, outer_in_flight: 2, max_held_in_op: 0, inner_mid_op: false,
-        inner_acq_mid_op: 0, inner_rel_mid_op: 0, bad_fail: false, cap: 0,
+        own: [9; MAXC], in_inner: 2, inner_budget: 0, outer_in_flight: 2, outer_release_in_flight: 2, max_held_in_op: 0,
+        inner_mid_op: false, inner_acq_mid_op: 0, inner_rel_mid_op: 0, bad_fail: false, cap: 0, lock_mode: false,
+        locked_returned: false, releases: 0, acquired_after_lock: false, bad_locked_fail: false,
     };
     pub static mut SPTR: usize = 1;
 
@@ -280,6 +287,18 @@ pub mod sched {
         assert!((i as usize) < b.cap, "c09: index outside the capacity");
         assert!(b.own[i as usize] == 9, "c09: two holders own the same index");
         b.own[i as usize] = who;
+    }
+
+    fn mode(b: &Book) -> ReleaseMode {
+        if b.lock_mode { ReleaseMode::LockIfLastIndex } else { ReleaseMode::Default }
+    }
+
+    fn note_release(b: &mut Book, st: ReleaseState) {
+        b.releases += 1;
+        if st == ReleaseState::Locked {
+            assert!(b.lock_mode, "c09: a Default release locked the set");
+            b.locked_returned = true;
+        }
     }
 
     unsafe fn set<const CAP: usize>() -> &'static FixedSizeUniqueIndexSet<CAP> {
@@ -308,7 +327,8 @@ pub mod sched {
                     kani::assume(i < CAP);
                     if b.own[i] == 2 {
                         b.own[i] = 9;
-                        s.release_raw_index(i as u32, ReleaseMode::Default);
+                        let st = s.release_raw_index(i as u32, mode(b));
+                        note_release(b, st);
                         done = true;
                         if mid {
                             b.inner_rel_mid_op += 1;
@@ -317,19 +337,28 @@ pub mod sched {
                 }
                 if !done {
                     let h = held(b);
+                    let locked_before = b.locked_returned;
                     match s.acquire_raw_index() {
                         Ok(i) => {
                             take(b, i, 2);
+                            if locked_before {
+                                b.acquired_after_lock = true;
+                            }
                             if mid {
                                 b.inner_acq_mid_op += 1;
                             }
                         }
-                        Err(e) => {
-                            assert!(e == UniqueIndexSetAcquireFailure::OutOfIndices);
+                        Err(UniqueIndexSetAcquireFailure::OutOfIndices) => {
                             // the outer operation in flight may hold one index the table does not show yet
                             let slack = if mid { 1 } else { 0 };
                             if h + slack < CAP {
                                 b.bad_fail = true;
+                            }
+                        }
+                        Err(UniqueIndexSetAcquireFailure::IsLocked) => {
+                            // legitimate only after (or while) a lock-if-last release emptied the set
+                            if !(b.locked_returned || b.outer_release_in_flight == 1) {
+                                b.bad_locked_fail = true;
                             }
                         }
                     }
@@ -346,18 +375,27 @@ pub mod sched {
     fn outer_acquire<const CAP: usize>(s: &FixedSizeUniqueIndexSet<CAP>) -> Option<u32> {
         unsafe {
             BOOK.max_held_in_op = held(&BOOK);
+            let locked_before = BOOK.locked_returned;
             BOOK.outer_in_flight = 1;
             let r = s.acquire_raw_index();
             BOOK.outer_in_flight = 2;
             match r {
                 Ok(i) => {
                     take(&mut BOOK, i, 1);
+                    if locked_before {
+                        BOOK.acquired_after_lock = true;
+                    }
                     Some(i)
                 }
-                Err(e) => {
-                    assert!(e == UniqueIndexSetAcquireFailure::OutOfIndices);
+                Err(UniqueIndexSetAcquireFailure::OutOfIndices) => {
                     if BOOK.max_held_in_op < CAP {
                         BOOK.bad_fail = true;
+                    }
+                    None
+                }
+                Err(UniqueIndexSetAcquireFailure::IsLocked) => {
+                    if !BOOK.locked_returned {
+                        BOOK.bad_locked_fail = true;
                     }
                     None
                 }
@@ -369,17 +407,21 @@ pub mod sched {
         unsafe {
             BOOK.own[i as usize] = 9;
             BOOK.outer_in_flight = 1;
-            s.release_raw_index(i, ReleaseMode::Default);
+            BOOK.outer_release_in_flight = 1;
+            let st = s.release_raw_index(i, mode(&BOOK));
+            BOOK.outer_release_in_flight = 2;
             BOOK.outer_in_flight = 2;
+            note_release(&mut BOOK, st);
         }
     }
 
     /// outer: acquire, [release], acquire, [release] ...; inner: up to INNER complete operations
-    pub fn race<const CAP: usize, const OUTER: usize, const INNER: usize>() {
+    pub fn race<const CAP: usize, const OUTER: usize, const INNER: usize>(lock_mode: bool) {
         let s = FixedSizeUniqueIndexSet::<CAP>::new();
         unsafe {
             SPTR = &s as *const _ as usize;
             BOOK.cap = CAP;
+            BOOK.lock_mode = lock_mode;
             BOOK.inner_budget = INNER;
             // optional warm-up by the inner thread so that the outer thread starts on a used free-list
             hook::<CAP>();
@@ -399,37 +441,171 @@ pub mod sched {
                 k += 1;
             }
             verif_clear_hook();
-            assert!(!BOOK.bad_fail, "c09: acquire failed although an index was free during the whole call");
-            assert!(s.borrowed_indices() == held(&BOOK), "c09: borrowed_indices differs from the holders");
-            // give everything back, then every index must be acquirable exactly once
-            let mut i = 0;
-            while i < CAP {
-                if BOOK.own[i] != 9 {
-                    BOOK.own[i] = 9;
-                    s.release_raw_index(i as u32, ReleaseMode::Default);
+            assert!(!BOOK.bad_fail, "c09: acquire failed with OutOfIndices although an index was free during the whole call");
+            assert!(!BOOK.bad_locked_fail, "c09: acquire failed with IsLocked although the set was never locked");
+            assert!(!BOOK.acquired_after_lock, "c09: an acquire succeeded after a release had reported the set as locked");
+            if BOOK.locked_returned {
+                assert!(s.is_locked(), "c09: a release reported Locked but the set is not locked afterwards");
+                assert!(held(&BOOK) == 0, "c09: the set was locked while an index was still held");
+            } else {
+                assert!(!s.is_locked(), "c09: the set is locked although no release reported it");
+                assert!(s.borrowed_indices() == held(&BOOK), "c09: borrowed_indices differs from the holders");
+                if lock_mode && BOOK.releases > 0 {
+                    assert!(held(&BOOK) > 0, "c09: the last index was released with LockIfLastIndex but the set did not lock");
                 }
-                i += 1;
-            }
-            let mut got = IdxSet::new();
-            let mut k = 0;
-            while k < CAP {
-                match s.acquire_raw_index() {
-                    Ok(i) => {
-                        assert!((i as usize) < CAP && !got.has(i), "c09: free-list corrupted (duplicate index)");
-                        got.add(i);
+                // give everything back (Default mode), then every index must be acquirable exactly once
+                let mut i = 0;
+                while i < CAP {
+                    if BOOK.own[i] != 9 {
+                        BOOK.own[i] = 9;
+                        s.release_raw_index(i as u32, ReleaseMode::Default);
                     }
-                    Err(_) => assert!(false, "c09: an index leaked under concurrency"),
+                    i += 1;
                 }
-                k += 1;
+                let mut got = IdxSet::new();
+                let mut k = 0;
+                while k < CAP {
+                    match s.acquire_raw_index() {
+                        Ok(i) => {
+                            assert!((i as usize) < CAP && !got.has(i), "c09: free-list corrupted (duplicate index)");
+                            got.add(i);
+                        }
+                        Err(_) => assert!(false, "c09: an index leaked under concurrency"),
+                    }
+                    k += 1;
+                }
+                assert!(s.acquire_raw_index().is_err());
             }
-            assert!(s.acquire_raw_index().is_err());
             kani::cover!(BOOK.inner_mid_op, "inner operation ran while an outer operation was in flight");
-            kani::cover!(BOOK.inner_acq_mid_op >= 1 && BOOK.inner_rel_mid_op >= 1,
-                "ABA shape: acquire and release completed inside one outer operation");
+            if lock_mode {
+                kani::cover!(BOOK.locked_returned && BOOK.inner_mid_op, "set locked in a race");
+            } else {
+                kani::cover!(BOOK.inner_acq_mid_op >= 1 && BOOK.inner_rel_mid_op >= 1,
+                    "ABA shape: acquire and release completed inside one outer operation");
+            }
         }
     }
 
-    proof!(8, fn c09_s_uis_race_cap2() { race::<2, 2, 3>(); canaries(); });
-    proof!(8, fn c09_s_uis_race_cap3_deep() { race::<3, 3, 4>(); canaries(); });
-    proof!(8, fn c09_s_uis_race_cap1() { race::<1, 2, 3>(); canaries(); });
+    proof!(8, fn c09_s_uis_race_cap2() { race::<2, 2, 3>(false); canaries(); });
+    proof!(8, fn c09_s_uis_race_cap2_lock() { race::<2, 2, 3>(true); canaries(); });
+    proof!(8, fn c09_s_uis_race_cap3_deep() { race::<3, 3, 4>(false); canaries(); });
+    proof!(8, fn c09_s_uis_race_cap2_lock_deep() { race::<2, 3, 4>(true); canaries(); });
+    proof!(8, fn c09_s_uis_race_cap1() { race::<1, 2, 3>(false); canaries(); });
+
+    // ---- robust index set: recovery of a dead owner racing with another recoverer and a live owner
+
+    pub struct RBook {
+        pub own: [u64; MAXC],     // 0 = free, else owner id (1 = dead owner, 2 = live owner)
+        pub in_inner: u8,
+        pub budget: usize,
+        pub inner_ops: usize,
+        pub inner_recovered: usize,
+    }
+    pub static mut RBOOK: RBook = RBook { own: [0; MAXC], in_inner: 2, budget: 1, inner_ops: 0, inner_recovered: 0 };
+    pub static mut RPTR: usize = 1;
+
+    const DEAD: u64 = 1;
+    const LIVE: u64 = 2;
+
+    unsafe fn rset<const CAP: usize>() -> &'static StaticRobustUniqueIndexSet<CAP> {
+        &*(RPTR as *const StaticRobustUniqueIndexSet<CAP>)
+    }
+
+    /// inner thread(s): a second recoverer cleaning up the same dead owner, or the live owner
+    /// acquiring / releasing
+    pub fn rhook<const CAP: usize>() {
+        unsafe {
+            let b = &mut RBOOK;
+            if b.in_inner == 1 {
+                return;
+            }
+            b.in_inner = 1;
+            if b.budget > 0 && kani::any::<bool>() {
+                b.budget -= 1;
+                b.inner_ops += 1;
+                let s = rset::<CAP>();
+                let what: u8 = kani::any();
+                if what == 0 {
+                    s.recover(ReleaseMode::Default, |o, _| o == OwnerId::new(DEAD).unwrap(), |o, n| {
+                        assert!(o == OwnerId::new(DEAD).unwrap());
+                        assert!(RBOOK.own[n] == DEAD, "c09: recovery returned an index the dead owner does not hold");
+                        RBOOK.own[n] = 0;
+                        RBOOK.inner_recovered += 1;
+                    });
+                } else if what == 1 {
+                    match s.acquire(OwnerId::new(LIVE).unwrap()) {
+                        Ok(n) => {
+                            assert!(n < CAP && b.own[n] == 0, "c09: robust index handed out twice");
+                            b.own[n] = LIVE;
+                        }
+                        Err(_) => {}
+                    }
+                } else {
+                    let n: usize = kani::any();
+                    kani::assume(n < CAP);
+                    if b.own[n] == LIVE {
+                        b.own[n] = 0;
+                        assert!(s.release(n, OwnerId::new(LIVE).unwrap(), ReleaseMode::Default).is_ok(),
+                            "c09: the live owner's release was refused");
+                    }
+                }
+            }
+            b.in_inner = 2;
+        }
+    }
+
+    pub fn robust_recover_race<const CAP: usize, const INNER: usize>() {
+        let s = StaticRobustUniqueIndexSet::<CAP>::new();
+        unsafe {
+            RPTR = &s as *const _ as usize;
+            // the dead owner holds 1..=CAP indices, the live owner possibly one
+            let ndead: usize = kani::any();
+            kani::assume(ndead >= 1 && ndead <= CAP);
+            let mut k = 0;
+            while k < CAP {
+                if k < ndead {
+                    let n = s.acquire(OwnerId::new(DEAD).unwrap()).unwrap();
+                    RBOOK.own[n] = DEAD;
+                }
+                k += 1;
+            }
+            RBOOK.budget = INNER;
+            verif_set_hook(rhook::<CAP>);
+            let mut mine = 0;
+            s.recover(ReleaseMode::Default, |o, _| o == OwnerId::new(DEAD).unwrap(), |o, n| {
+                assert!(o == OwnerId::new(DEAD).unwrap());
+                // exactly the dead owner's indices, each recovered by exactly one recoverer
+                assert!(RBOOK.own[n] == DEAD, "c09: recovery returned an index that is not (or no longer) the dead owner's");
+                RBOOK.own[n] = 0;
+                mine += 1;
+            });
+            verif_clear_hook();
+            // quiescent: the set agrees with the holders
+            let mut holders = 0;
+            let mut i = 0;
+            while i < CAP {
+                if RBOOK.own[i] != 0 {
+                    holders += 1;
+                    assert!(RBOOK.own[i] == LIVE, "c09: a dead owner's index was not recovered");
+                }
+                i += 1;
+            }
+            assert!(s.borrowed_indices() == holders, "c09: borrowed_indices differs from the live holders after recovery");
+            // the live owner can still release what it holds
+            let mut i = 0;
+            while i < CAP {
+                if RBOOK.own[i] == LIVE {
+                    assert!(s.release(i, OwnerId::new(LIVE).unwrap(), ReleaseMode::Default).is_ok(),
+                        "c09: live owner lost its index to a recovery");
+                }
+                i += 1;
+            }
+            assert!(mine + RBOOK.inner_recovered == ndead, "c09: dead owner's indices recovered more or less than once");
+            kani::cover!(RBOOK.inner_recovered > 0 && mine > 0, "two recoverers shared the dead owner's indices");
+            kani::cover!(RBOOK.inner_ops >= 2, "two inner operations ran during the recovery");
+        }
+    }
+
+    proof!(8, fn c09_s_robust_recover_race() { robust_recover_race::<2, 2>(); canaries(); });
+    proof!(8, fn c09_s_robust_recover_race_deep() { robust_recover_race::<2, 3>(); canaries(); });
 }
